@@ -180,21 +180,29 @@ def shard(ctx, si, payload):
         shared = np.vstack([rng.uniform(0, 1, 2048) for _ in range(4)])
         nodes0 = shared.copy()
         scan = [cfg, make_cfg(alt * 1.5, limb, cone, az), make_cfg(alt, limb, min(89.0, cone * 2), az), cfg]
-        gas = [RegionGeom(c2) for c2 in scan]  # all objects of the scan are built first, then used
-        for j, c2 in enumerate(scan):
-            try:
-                ga, gb = gas[j], RegionGeom(c2)
-                ga.throw(shared)
+        # references first: for each configuration an object built, thrown and integrated on its own
+        refs = []
+        try:
+            for c2 in scan:
+                gb = RegionGeom(c2)
                 gb.throw(nodes0.copy())
-                na, nb = int(np.sum(ga.event_mask)), int(np.sum(gb.event_mask))
+                nb = int(np.sum(gb.event_mask))
+                refs.append((nb, gb.mcintegral(np.ones(nb), -1.0, np.ones(nb), 0.5, 1.0, 1.0)[1], np.array(gb.losPathLen, copy=True)))
+            gas = [RegionGeom(c2) for c2 in scan]  # then all objects of the scan are built, and only then used
+        except Exception as e:
+            ctx.exception("raises", "throw / mcintegral raised while preparing a scan", e, wit)
+            refs, gas = [], []
+        for j, (ga, (nb, eb_, lb_)) in enumerate(zip(gas, refs)):
+            try:
+                ga.throw(shared)
+                na = int(np.sum(ga.event_mask))
                 ea_ = ga.mcintegral(np.ones(na), -1.0, np.ones(na), 0.5, 1.0, 1.0)[1]
-                eb_ = gb.mcintegral(np.ones(nb), -1.0, np.ones(nb), 0.5, 1.0, 1.0)[1]
             except Exception as e:
                 ctx.exception("raises", f"throw / mcintegral raised at step {j} of a scan with one shared node array", e, wit)
                 break
             ctx.count("shared-grid")
-            if not (na == nb and ea_ == eb_ and np.array_equal(np.asarray(ga.losPathLen), np.asarray(gb.losPathLen))):
-                ctx.violation("shared-grid", f"altitude {alt} km: step {j} of a scan (objects built first, one array of nodes re-used): geometry-only integral {ea_!r} from the scan's object and the shared array, {eb_!r} from an object built on the spot and a private copy of the same nodes ({na} vs {nb} events kept; node array {'changed' if shared.tobytes() != nodes0.tobytes() else 'unchanged'})", dict(wit, step=j))
+            if not (na == nb and ea_ == eb_ and np.array_equal(np.asarray(ga.losPathLen), lb_)):
+                ctx.violation("shared-grid", f"altitude {alt} km: step {j} of a scan (all {len(gas)} objects built first, one array of nodes re-used): geometry-only integral {ea_!r}; an object built, thrown and integrated on its own with a private copy of the same nodes gives {eb_!r} ({na} vs {nb} events kept; node array {'changed' if shared.tobytes() != nodes0.tobytes() else 'unchanged'})", dict(wit, step=j))
                 break
         # ---- quadrature against the independent aperture
         if payload["sobol_m"] and k < payload["nquad"]:
